@@ -255,6 +255,15 @@ func RandomConfig(seed int64) *Config {
 	s.MAX_VALIDATORS_PER_WITHDRAWALS_SWEEP = view.Uint64View(pick(2, 8, 16))
 	s.MAX_BLOBS_PER_BLOCK = view.Uint64View(pick(1, 2, 6))
 	s.SECONDS_PER_SLOT = common.Timestamp(pick(2, 6, 12))
+
+	// state vector lengths (all derived from the spec by the type constructors):
+	// SLOTS_PER_HISTORICAL_ROOT >= 2*SLOTS_PER_EPOCH (block roots of the whole previous epoch must still be
+	// there when the last block of the current epoch includes its attestations) and a multiple of
+	// SLOTS_PER_EPOCH; EPOCHS_PER_HISTORICAL_VECTOR > MIN_SEED_LOOKAHEAD + a few epochs of seeds;
+	// EPOCHS_PER_SLASHINGS_VECTOR even (the proportional penalty hits at half of it).
+	s.SLOTS_PER_HISTORICAL_ROOT = common.Slot(pick(16, 32, 64))
+	s.EPOCHS_PER_HISTORICAL_VECTOR = common.Epoch(pick(8, 16, 64))
+	s.EPOCHS_PER_SLASHINGS_VECTOR = common.Epoch(pick(4, 8, 64))
 	return &Config{ID: fmt.Sprintf("rand:%d", seed), Spec: s}
 }
 
